@@ -167,14 +167,23 @@ class Sched(object):
             self.by_ident.pop(a.ident, None)
         self._wake(a)
         nxt = self._runnable()
+        if not nxt:
+            blocked = [b for b in self.actors if b.state == BLOCKED]
+            if blocked:
+                # nobody can run: a deadlock (or the rest of an aborted run).  Release every
+                # blocked actor; each wakes up inside _switch, sees the abort and unwinds.
+                if self.abort is None:
+                    self.deadlock = [(b.name, repr(b.blocked_on)) for b in blocked]
+                    self.abort = "deadlock"
+                for b in blocked:
+                    b.state = RUNNABLE
+                    b.blocked_on = None
+                nxt = blocked
         if nxt:
-            n = nxt[self.stream.choose(len(nxt), "next-after-exit")]
+            n = nxt[self.stream.choose(len(nxt), "next-after-exit") if self.abort is None else 0]
             self.current = n
             n.sem.release()
         else:
-            blocked = [b for b in self.actors if b.state == BLOCKED]
-            if blocked and self.deadlock is None:
-                self.deadlock = [(b.name, repr(b.blocked_on)) for b in blocked]
             self.current = None
             self.all_done.set()
 
@@ -234,12 +243,13 @@ class Sched(object):
         a.blocked_on = obj
         others = self._runnable()
         if not others:
-            self.deadlock = [(b.name, repr(b.blocked_on)) for b in self.actors
-                             if b.state == BLOCKED]
-            self.abort = "deadlock"
+            if self.abort is None:
+                self.deadlock = [(b.name, repr(b.blocked_on)) for b in self.actors
+                                 if b.state == BLOCKED]
+                self.abort = "deadlock"
             a.state = RUNNABLE
             a.blocked_on = None
-            raise SimAbort("deadlock")
+            raise SimAbort(self.abort)
         nxt = others[self.stream.choose(len(others), "who-after-block")]
         self._switch(a, nxt, "block")
 
@@ -436,6 +446,27 @@ class SimRLock(object):
 
     def __exit__(self, *a):
         self.release()
+
+
+class SimGate(object):
+    """One-shot event: wait() blocks logically until open()."""
+
+    def __init__(self):
+        self.is_open = False
+
+    def wait(self):
+        s = _CURRENT
+        while not self.is_open:
+            s.block_on(self)
+
+    def open(self):
+        self.is_open = True
+        s = _CURRENT
+        if s is not None:
+            s.wake(self)
+
+    def __repr__(self):
+        return "<SimGate open=%s>" % self.is_open
 
 
 class SimQueue(object):
